@@ -1,0 +1,24 @@
+// Copyright The gittuf Authors
+// SPDX-License-Identifier: Apache-2.0
+
+//go:build verif
+
+package rsl
+
+// ResetCacheForVerif empties the process-wide entry/parent cache so that a
+// verification harness can observe cold reads. Only built with the verif tag.
+func ResetCacheForVerif() {
+	cache.entryCacheMutex.Lock()
+	cache.entryCache = map[string]Entry{}
+	cache.entryCacheMutex.Unlock()
+
+	cache.parentCacheMutex.Lock()
+	cache.parentCache = map[string]string{}
+	cache.parentCacheMutex.Unlock()
+}
+
+// CanonicalTextForVerif returns the text gittuf would write for the entry,
+// including its number. Only built with the verif tag.
+func CanonicalTextForVerif(e Entry) (string, error) {
+	return e.createCommitMessage(true)
+}
